@@ -678,8 +678,11 @@ ICUTranscoder::transcodeTo( const   XMLCh* const    srcData
 
     if (!res)
     {
+        // ICU has moved the source pointer past the character it could not
+        // convert, possibly to the end of the source
+        const UChar* badChar = (startSrc > srcPtr) ? (startSrc - 1) : srcPtr;
         XMLCh tmpBuf[17];
-        XMLString::binToText((unsigned int)*startSrc, tmpBuf, 16, 16, getMemoryManager());
+        XMLString::binToText((unsigned int)*badChar, tmpBuf, 16, 16, getMemoryManager());
         ThrowXMLwithMemMgr2
         (
             TranscodingException
